@@ -572,10 +572,10 @@ def _compute_form_ir(
         # UFL is using "otherwise" for default integrals (over whole mesh)
         # but FFCx needs integers, so otherwise = -1
         integral_type = itg_data.integral_type
-        subdomain_ids = [sid if sid != "otherwise" else -1 for sid in itg_data.subdomain_id]
-
-        if min(subdomain_ids) < -1:
+        # -1 is reserved for "otherwise": user supplied ids must be non-negative
+        if any(sid != "otherwise" and sid < 0 for sid in itg_data.subdomain_id):
             raise ValueError("Integral subdomain IDs must be non-negative.")
+        subdomain_ids = [sid if sid != "otherwise" else -1 for sid in itg_data.subdomain_id]
         ir["subdomain_ids"][integral_type] += subdomain_ids
         for _ in range(len(subdomain_ids)):
             iname = integral_names[(form_id, itg_index)]
